@@ -515,8 +515,9 @@ func init() {
 			sc.Setup(w)
 			faults := 3
 			conflicts := 2
+			updFaults := 2
 			if a.profile == "env" || a.profile == "big" {
-				faults, conflicts = 0, 0
+				faults, conflicts, updFaults = 0, 0, 0
 			}
 			flight := map[string]*Pass{}
 			finish := func(p *Pass) {
@@ -583,6 +584,12 @@ func init() {
 							p.Pending.key.Kind == "ObjectDeployment" && rng.Intn(3) == 0 {
 							conflicts--
 							fault = "conflict"
+						}
+						// ... or is answered with a server error (nothing written)
+						if fault == "" && updFaults > 0 && p.Actor == "pk" && p.Pending != nil && p.Pending.verb == "Update" &&
+							p.Pending.key.Kind == "ObjectDeployment" && rng.Intn(3) == 0 {
+							updFaults--
+							fault = "before"
 						}
 						n := 1
 						if a.mode == "atomic" {
